@@ -1,11 +1,13 @@
 (* C19 model runner: one case per line on stdin, one result per line on stdout.
    M <hex>      validateMediaType
-   T <hex>      time.Parse(time.RFC3339, _) succeeds
+   T <hex>      the created validation of pack.go (validateRFC3339) accepts
+   L <hex>      time.Parse(time.RFC3339, _) alone succeeds (the lenient recogniser)
+   U <hex>      a string after json.Marshal / Unmarshal (invalid UTF-8 coerced)
    K <fn> <exists> <key 0=full 1=digest 2=namespace 3=file> <failat|-> <at> <subject> <layers> <ann> <config> <config_ann> <store>
    Descriptors  D:<mt>:<dg>:<size>:<ann>:<at>:<extra>   (hex fields, "-" = empty)
    Annotations  -  |  k=v;k=v
    Option       N | <desc>          List  N | L,<desc>,<desc>...
-   Store        S,<mt>:<dg>:<size>[:n],...   (n = named file of a file store)                                          *)
+   Store        S,<mt>:<dg>:<size>[:<name>],...   (name = file name in a file store)                                          *)
 let z_of_int (i : int) : z =
   if i = 0 then Z0 else if i > 0 then Zpos (pos_of_int i) else Zneg (pos_of_int (-i))
 let int_of_z (x : z) : int =
@@ -56,14 +58,14 @@ let store_of s =
   match split ',' s with
   | "S" :: es ->
     List.map (fun e -> match split ':' e with
-        | [mt; dg; sz] -> { e_mt = str_of_hex mt; e_dg = str_of_hex dg; e_sz = z_of_int (int_of_string sz); e_bytes = []; e_named = false }
-        | [mt; dg; sz; "n"] -> { e_mt = str_of_hex mt; e_dg = str_of_hex dg; e_sz = z_of_int (int_of_string sz); e_bytes = []; e_named = true }
+        | [mt; dg; sz] -> { e_mt = str_of_hex mt; e_dg = str_of_hex dg; e_sz = z_of_int (int_of_string sz); e_bytes = []; e_name = [] }
+        | [mt; dg; sz; nm] -> { e_mt = str_of_hex mt; e_dg = str_of_hex dg; e_sz = z_of_int (int_of_string sz); e_bytes = []; e_name = str_of_hex nm }
         | _ -> failwith "entry") es
   | _ -> failwith "store"
 
 let show_event e =
   match e with
-  | EvExists d -> Printf.sprintf "X:%s:%s:%d" (hex_of_str d.d_mt) (hex_of_str d.d_dg) (int_of_z d.d_sz)
+  | EvExists d -> Printf.sprintf "X:%s:%s:%d:%s" (hex_of_str d.d_mt) (hex_of_str d.d_dg) (int_of_z d.d_sz) (show_ann d.d_ann)
   | EvPush (RBlob, d, _) ->
     Printf.sprintf "PB:%s:%s:%d:%s" (hex_of_str d.d_mt) (hex_of_str d.d_dg) (int_of_z d.d_sz) (show_ann d.d_ann)
   | EvPush (RManifest, d, _) ->
@@ -77,7 +79,7 @@ let show_err e =
   | EInvalidMediaType -> "invalid-media-type"
   | EMissingArtifactType -> "missing-artifact-type"
   | EInvalidDateTime -> "invalid-datetime"
-  | EInjected -> "injected"
+  | EInjected -> "storage-error"
 
 let fn_of s =
   match s with
@@ -94,6 +96,8 @@ let () =
   iter_lines (fun l ->
     match split_ws l with
     | [id; "M"; h] -> Printf.printf "%s %s\n" id (if valid_media_type (str_of_hex h) then "1" else "0")
+    | [id; "L"; h] -> Printf.printf "%s %s\n" id (if rfc3339_ok_prefix (str_of_hex h) then "1" else "0")
+    | [id; "U"; h] -> Printf.printf "%s %s\n" id (hex_of_str (utf8_san (str_of_hex h)))
     | [id; "T"; h] -> Printf.printf "%s %s\n" id (if rfc3339_ok (str_of_hex h) then "1" else "0")
     | [id; "K"; f; ex; bd; fa; at; subj; layers; ann; cfg; cann; store; _spec] ->
       let tc = { t_exists = (ex = "1");
@@ -106,6 +110,9 @@ let () =
       (match r with
        | Err e -> Printf.printf "%s ERR %s EV %s\n" id (show_err e) (show_events s'.s_events)
        | Ok (d, m) ->
+         (* the document is shown as it can be read back from the stored bytes (json.Marshal
+            coerces strings to valid UTF-8); descriptor and events are what Pack handed out *)
+         let m = san_manifest m in
          Printf.printf "%s OK %s:%s:%s kind=%s cfg=%s layers=%s subj=%s at=%s ann=%s EV %s\n" id
            (hex_of_str d.d_mt) (hex_of_str d.d_at) (show_ann d.d_ann)
            (match m.m_kind with KImage -> "I" | KArtifact -> "A")
